@@ -26,8 +26,7 @@ pub fn exec_rl(st: &mut State, name: &str, t: &[&str]) -> String {
         // build : calls…  then RLVector::from(builder)
         "build" => {
             let mut b = RLBuilder::new();
-            for (k, c) in t[1..].iter().enumerate() {
-                if *c == ":" { continue; }
+            for (k, c) in t[1..].iter().filter(|c| **c != ":").enumerate() {
                 if builder_call(&mut b, c) == "err" { return format!("err:set@{}", k); }
             }
             let v = RLVector::from(b);
